@@ -20,6 +20,7 @@ Perms == UNION { { InsertAt(p, 1, "CD"), InsertAt(p, 7, "CD"), InsertAt(p, PosOf
 Styles == {"PLAINTEXT", "GOOGLE", "NUMPYDOC", "REST"}
 
 (* documented items of an element: <<owner declaration, item, tag, tag name>> *)
+FunItemsP(o, p) == { <<o, "desc", "desc", "">>, <<o, "p_" \o p, "param", p>>, <<o, "res", "result", "result_1">> }
 FunItems(o, withExample) ==
   { <<o, "desc", "desc", "">>, <<o, "p_p", "param", "p">>, <<o, "res", "result", "result_1">> }
   \cup (IF withExample THEN { <<o, "ex", "example", "">> } ELSE {})
@@ -27,6 +28,7 @@ Items(e) ==
   CASE e = "fa" -> FunItems("fa", TRUE)
     [] e = "fb" -> FunItems("fb", FALSE)
     [] e = "CA" -> { <<"CA", "desc", "desc", "">>, <<"CA", "p_x", "param", "x">>, <<"CA.at", "at", "desc", "">> } \cup FunItems("CA.meth", FALSE)
+                   \cup FunItemsP("CA.re__init__", "x")       \* a method whose name ends in __init__, its parameter is named like the constructor's
     [] e = "CB" -> { <<"CB", "desc", "desc", "">> } \cup FunItems("CB.meth", FALSE)
     [] e = "CC" -> {}
     [] e = "CD" -> { <<"CD", "p_z", "param", "z">> }     \* no class docstring; the constructor's docstring documents the parameter
